@@ -214,6 +214,13 @@ class DynProperty(Property):
                     toks = large_history(rng, kind)
                 f = " factor=%s" % rng.choice(FACTORS) if kind.endswith("_att") else ""
                 tr = " trace=1" if kind in MODELLED else ""
+                if not kind.startswith("dummy") and rng.random() < 0.08 and "A1" not in "".join(toks[:0]):
+                    # the convenience constructors (default SAT solver, default / given reservation factor): answers judged only
+                    big = any(t.startswith("A") and int(t[1:]) >= 100 for t in toks)
+                    if not big:
+                        tr = " ctor=new" if (not kind.endswith("_att") or rng.random() < 0.5) else " ctor=new_factor"
+                        if tr == " ctor=new":
+                            f = ""
                 lines.append("dyn x kind=%s%s%s hist=%s" % (kind, f, tr, ";".join(toks)))
         return lines
 
